@@ -42,7 +42,6 @@ func loopLeavesOnlyWithError(l *rangeLoop) (bool, ssa.Instruction) {
 	return true, nil
 }
 
-
 // loopCoversAll: the loop runs over the WHOLE sequence: an index loop counts from 0 in steps of 1 up to a bound
 // without arithmetic (i < n, i < len(x), i < t.NumField()); a range loop ranges over a value that is not a
 // sub-slice expression.
@@ -641,7 +640,6 @@ func ruleComparableErrors(rule string) RuleFn {
 	}
 }
 
-
 // taOK reports whether v is the ok result of a comma-ok type assertion (also the ones a type switch is made of) to
 // the dig type named typ (value or pointer).
 func taOK(v ssa.Value, typ string) bool {
@@ -669,27 +667,38 @@ func taOK(v ssa.Value, typ string) bool {
 	return an.IsDigNamed(t, typ)
 }
 
-// stopsAt: on the "is an errConstructorFailed" edge the walk over the error chain ends: no errors.Unwrap is
-// reachable from it (without leaving the function).
-func stopsAtConstructorFailed(fn *ssa.Function) (bool, string) {
-	stop := an.BoolEdges(fn, func(v ssa.Value) bool { return taOK(v, "errConstructorFailed") }, true)
-	if len(stop) == 0 {
-		return false, "the walk does not test for errConstructorFailed"
-	}
-	uw := an.CallsNamed(fn, "errors.Unwrap")
-	for _, e := range stop {
-		first := e.From.Succs[e.Succ].Instrs[0]
-		for _, u := range uw {
-			if first == ssa.Instruction(u) {
-				return false, "the walk goes on below an errConstructorFailed link"
-			}
-			if hit, _ := an.PathTo(fn, first, an.IsInstr(u.(ssa.Instruction)), nil); hit != nil {
-				return false, "the walk goes on below an errConstructorFailed link"
+// stopsAtFunctionFailed: on the "is an errConstructorFailed" edge and on the "is an errDecoratorFailed" edge the walk
+// over the error chain ends: no errors.Unwrap (and no recursive call of the walker) is reachable from them.
+func stopsAtFunctionFailed(fn *ssa.Function) (bool, string) {
+	for _, typ := range []string{"errConstructorFailed", "errDecoratorFailed"} {
+		typ := typ
+		stop := an.BoolEdges(fn, func(v ssa.Value) bool { return taOK(v, typ) }, true)
+		if len(stop) == 0 {
+			return false, "the walk does not test for " + typ
+		}
+		var onward []ssa.Instruction
+		for _, u := range an.CallsNamed(fn, "errors.Unwrap") {
+			onward = append(onward, u.(ssa.Instruction))
+		}
+		for _, k := range methodCalls(fn, an.ShortName(fn)) {
+			onward = append(onward, k)
+		}
+		for _, e := range stop {
+			first := e.From.Succs[e.Succ].Instrs[0]
+			for _, u := range onward {
+				if first == u {
+					return false, "the walk goes on below an " + typ + " link"
+				}
+				if hit, _ := an.PathTo(fn, first, an.IsInstr(u), nil); hit != nil {
+					return false, "the walk goes on below an " + typ + " link"
+				}
 			}
 		}
 	}
 	return true, ""
 }
+
+func stopsAtConstructorFailed(fn *ssa.Function) (bool, string) { return stopsAtFunctionFailed(fn) }
 
 // ruleNoFormatUserValue (T-no-format).
 func ruleNoFormatUserValue(rule string) RuleFn {
@@ -1083,5 +1092,48 @@ func ruleSavedOnce(rule string) RuleFn {
 			c.Check(good, rule, "provide saves the old provider list of a key once, before appending", "range over the key set", "the save can run twice for one key (the keys are a list, and a value-group key may occur in it twice): the second save already contains the new constructor, the roll-back of a cycle rejection puts the rejected constructor back into Scope.providers while its graph node is gone - it is executed later, or the next Invoke panics in the cycle check with an index out of range", mu, nil)
 		})
 		c.Floor(rule, "saves of old provider lists in provide", n, 1)
+	}
+}
+
+// ruleDecoratorMarked (W-decorator-marked).
+func ruleDecoratorMarked(rule string) RuleFn {
+	return func(c *an.Ctx) {
+		c.Rule(rule, "W-decorator-marked: the error a decorator returns travels inside a marker link of its own (errDecoratorFailed), the way a constructor's travels inside errConstructorFailed: decoratorNode.Call returns the non-nil error of its function only wrapped in that literal. Every walker that must not look inside what a user function returned - RootCause, IsCycleDetected, missingDependencies (the optional test), updateGraph and CanVisualizeError - recognises the boundary by these two types; without the marker a decorator that passes on another container's dig error is taken apart (RootCause), reported as a cycle of this container, hidden by an optional parameter, or drawn as this container's missing type")
+		fn := c.Fn(rule, "(*dig.decoratorNode).Call")
+		if fn == nil {
+			return
+		}
+		ext := methodCalls(fn, "(dig.resultList).ExtractList")
+		good, why := len(ext) == 1, "ExtractList is not called exactly once"
+		if good {
+			nonNil := an.NonNilErrEdges(fn, ext[0], 0)
+			okWrap := false
+			an.Instrs(fn, func(in ssa.Instruction) {
+				al, ok := in.(*ssa.Alloc)
+				if !ok || !isConstruction(al) || !an.IsDigNamed(al.Type(), "errDecoratorFailed") {
+					return
+				}
+				for _, st := range an.StoresToField(fn, "errDecoratorFailed", "Reason") {
+					if strings.Contains(an.Norm(st.Val), ".ExtractList(") {
+						okWrap = true
+					}
+				}
+			})
+			if !okWrap {
+				good, why = false, "the decorator's error is not wrapped in an errDecoratorFailed literal"
+			}
+			// no return of the bare error
+			for _, e := range nonNil {
+				first := e.From.Succs[e.Succ].Instrs[0]
+				bare := func(i ssa.Instruction) bool {
+					r, ok := i.(*ssa.Return)
+					return ok && len(r.Results) == 1 && strings.HasSuffix(an.Norm(an.Resolve(r.Results[0])), ".ExtractList("+strings.SplitN(an.Norm(ext[0]), ".ExtractList(", 2)[1])
+				}
+				if hit, _ := an.PathTo(fn, first, bare, nil); hit != nil || bare(first) {
+					good, why = false, "decoratorNode.Call returns the decorator's error bare"
+				}
+			}
+		}
+		c.Check(good, rule, "decoratorNode.Call marks the error its function returned", "return errDecoratorFailed{Reason: err}", why+": a decorator returning the dig error of another container (a nested Invoke's failure) has it taken apart by RootCause, makes IsCycleDetected true for another container's cycle, is swallowed by an optional parameter, and has the foreign missing type drawn by Visualize - the very defects already repaired for constructors", nil, nil)
 	}
 }
